@@ -1164,3 +1164,185 @@ def rule_pipeline_simulation(ctx, R: str, title: str = None):
         problems.append(f'tensor {t.fields["name"]}: type {ty} but parameters {"present" if t.fields["quantization"] is not None else "absent"}')
     ctx.check(R, not problems, tg.node, tg, f'case "{cname}": operators {[(o.fields["label"] or "new") for o in sg.fields["operators"]]}', '; '.join(problems[:3]))
   ctx.sample(R, {'cases': [c[0] for c in cases]})
+
+
+# ------------------------------------- multi-subgraph pipeline: independence
+def _pipeline_multi(ctx, R, graphs, rules):
+  """Runs calibrate (one signature per subgraph, in order) -> plan ->
+  instructions -> rewrite on a label model made of `graphs`. Returns
+  (model Obj, None) or (None, reason)."""
+  from sa import absint, consteval  # pylint: disable=g-import-not-at-top
+  from sa.consteval import Obj, Ext, Ref  # pylint: disable=g-import-not-at-top
+  from sa.ndarr import NdArr  # pylint: disable=g-import-not-at-top
+  from sa.rules import c11, c19  # pylint: disable=g-import-not-at-top
+  CAL, PG = 'calibrator:Calibrator', 'params_generator:ParamsGenerator'
+  TIG, PERF = 'transformation_instruction_generator:TransformationInstructionsGenerator', 'transformation_performer:TransformationPerformer'
+  cal = ctx.repo.func(f'{CAL}.calibrate')
+  gen = ctx.repo.func(f'{PG}.generate_quantization_parameters')
+  q2i = ctx.repo.func(f'{TIG}.quant_params_to_transformation_insts')
+  tg = ctx.repo.func(f'{PERF}.transform_graph')
+  BO, TT = consteval.schema_enum('BuiltinOperator'), consteval.schema_enum('TensorType')
+  code = lambda n: Ext(f'BuiltinOperator.{n}', BO[n])
+  OP, ALG, drq, srq, bad = c11._domain(ctx)  # pylint: disable=protected-access
+  MM = ALG['MIN_MAX_UNIFORM_QUANT']
+  reg = tables.registry(ctx)
+  KIND = {'fc': 'FULLY_CONNECTED', 'abs': 'CUSTOM', 'sm': 'SOFTMAX'}
+  KINDS = list(KIND)
+  F32 = TT['FLOAT32']
+  # weights and runtime contents depend on the tensor NAME only, so that a subgraph sees the same numbers alone and in company
+  seed = lambda n: sum(ord(c) for c in n) % 11
+  wts = {n: NdArr((2, 2), [5 + seed(n), -7, 2, 9 - seed(n)]) for g in graphs for n, c in g[0] if c}
+
+  def model():
+    sgs, bufs = [], [Obj('x:BufferT', {'data': None, 'offset': 0, 'size': 0})]
+    for gi, (tensors, ops, gin, gout) in enumerate(graphs):
+      ts = []
+      for n, c in tensors:
+        bufs.append(Obj('x:BufferT', {'data': (f'float-bytes-of-{n}' if c else None), 'offset': 0, 'size': 0}))
+        ts.append(Obj('x:TensorT', {'name': n.encode(), 'buffer': len(bufs) - 1, 'type': F32, 'shape': [2, 2] if c else [1, 2], 'quantization': None}))
+      os_ = [Obj('x:OperatorT', {'label': lab, 'opcodeIndex': KINDS.index(k), 'inputs': list(i), 'outputs': list(o), 'builtinOptions': None}) for lab, k, i, o in ops]
+      sgs.append(Obj('x:SubGraphT', {'tensors': ts, 'operators': os_, 'inputs': list(gin), 'outputs': list(gout), 'name': f'sg{gi}'.encode()}))
+    return Obj('x:ModelT', {'subgraphs': sgs, 'buffers': bufs, 'signatureDefs': None,
+                            'operatorCodes': [Obj('x:OperatorCodeT', {'builtinCode': code(KIND[k])}) for k in KINDS]})
+  cur = {'k': 0}
+
+  def content(n, k):
+    return NdArr((1, 2), [k + seed(n), -2 * k - seed(n)])
+
+  def details(a, k, kind=None):
+    g = a[0] if a else k.get('subgraph_index', 0)
+    return [{'name': n, 'index': i, 'dtype': 'float32', 'quantization_parameters': {'scales': [], 'zero_points': [], 'quantized_dimension': 0}} for i, (n, c) in enumerate(graphs[g][0])]
+
+  def get_tensor(a, k, kind=None):
+    g = a[1] if len(a) > 1 else k.get('subgraph_index', 0)
+    n = graphs[g][0][a[0]][0]
+    return wts[n] if n in wts else content(n, cur['k'])
+  interp = Obj('x:Interpreter', {'reset_all_variables': _StandIn(lambda a, k, kind=None: None, 'r'), 'get_tensor_details': _StandIn(details, 'd'), 'get_tensor': _StandIn(get_tensor, 't')})
+
+  def invoke(a, k):
+    cur['k'] = a[1]['k']
+    return {}
+
+  def lookup(alg, op, what):
+    try:
+      return Ref('func', reg[alg][op][what].fq)
+    except (KeyError, TypeError):
+      raise index.AnalysisError(f'{R}: registry lookup with an undecided key ({alg!r}, {op!r})')
+
+  def tensor_data(a, k):
+    t = a[0].fields
+    nm = t['name'].decode() if isinstance(t.get('name'), bytes) else None
+    return wts.get(nm)
+  hooks = {
+      c11.CHECK_FQ: (lambda a, k: c11._mk_interp(ctx).hooks[c11.CHECK_FQ](a, k)),  # pylint: disable=protected-access
+      'algorithm_manager.get_init_qsv_func': lambda a, k: lookup(a[0], a[1], 'init'),
+      'algorithm_manager.get_quantization_func': lambda a, k: lookup(a[0], a[1], 'calibrate' if getattr(a[2], 'name', '') == 'CALIBRATE' else 'materialize'),
+      'tfl_interpreter_utils.invoke_interpreter_signature': invoke,
+      'tfl_interpreter_utils.get_signature_main_subgraph_index': lambda a, k: int(a[1][1:]),
+      'tfl_flatbuffer_utils.get_tensor_data': tensor_data,
+      'np.issubdtype': lambda a, k: True,
+      'schema_py_generated.OperatorT': lambda a, k: Obj('x:OperatorT', {'label': None, 'opcodeIndex': None, 'inputs': None, 'outputs': None, 'builtinOptions': None}),
+      'schema_py_generated.TensorT': lambda a, k: Obj('x:TensorT', {'name': None, 'shape': None, 'type': None, 'buffer': None, 'quantization': None}),
+      'schema_py_generated.OperatorCodeT': lambda a, k: Obj('x:OperatorCodeT', {'builtinCode': None}),
+      'schema_py_generated.QuantizationParametersT': lambda a, k: Obj('x:QuantizationParametersT', {'scale': None, 'zeroPoint': None, 'quantizedDimension': 0}),
+  }
+  it = absint.Interp(ctx.repo, ctx.ev, hooks=hooks)
+  store = {}
+  for rx, kind, cfg in rules:
+    opn = OP[KIND[kind]] if kind in KIND else OP[kind if kind != '*' else 'ALL_SUPPORTED']
+    store.setdefault(rx, []).append(c11._recipe(rx, opn, MM, srq if cfg == 'srq' else drq))  # pylint: disable=protected-access
+  rm = Obj('recipe_manager:RecipeManager', {'_scope_configs': store})
+  calo = Obj(CAL, {'_flatbuffer_model': model(), '_tfl_interpreter': interp, '_tensor_content_map': {}, '_model_qsvs': {}, '_cached_output': []})
+  for gi in range(len(graphs)):
+    o1 = it.outcomes(cal, [calo, [{'k': 1}, {'k': 2}], rm, f's{gi}'], copy_args=False)
+    if len(o1) != 1 or o1[0].kind != 'return':
+      return None, f'calibrate(signature of subgraph {gi}): {[x.short()[:120] for x in o1]}'
+  m = model()
+  b2t = it.outcomes(ctx.repo.func('utils.tfl_flatbuffer_utils:buffer_to_tensors'), [m], copy_args=False)
+  pg = Obj(PG, {'flatbuffer_model': model(), 'model_quant_results': {}, 'buffer_to_tensors': b2t[0].value if len(b2t) == 1 and b2t[0].kind == 'return' else {}})
+  o2 = it.outcomes(gen, [pg, rm, calo.fields['_model_qsvs']], copy_args=False)
+  if len(o2) != 1 or o2[0].kind != 'return':
+    return None, f'plan generation: {[x.short()[:160] for x in o2]}'
+  tig = Obj(TIG, {'TensorGraphInfo': c19._Ctor(f'{TIG}.TensorGraphInfo', ['tensor_id', 'subgraph_id', 'producer', 'consumers']), 'flatbuffer_model': None, '_tensor_name_to_graph_info': {}})  # pylint: disable=protected-access
+  o3 = it.outcomes(q2i, [tig, pg.fields['model_quant_results'], m], copy_args=False)
+  if len(o3) != 1 or o3[0].kind != 'return':
+    return None, f'instruction generation: {[x.short()[:160] for x in o3]}'
+  perf = it.construct(PERF, [], {}, None, 0)
+  o4 = it.outcomes(tg, [perf, o3[0].value, m], copy_args=False)
+  if len(o4) != 1 or o4[0].kind != 'return':
+    return None, f'graph rewrite: {[x.short()[:160] for x in o4]}'
+  return m, None
+
+
+def _subgraph_fingerprint(model, g):
+  """What a subgraph looks like after quantization, independent of model-wide indices."""
+  from sa.consteval import Ext, Obj  # pylint: disable=g-import-not-at-top
+  from sa.ndarr import NdArr  # pylint: disable=g-import-not-at-top
+  import fractions  # pylint: disable=g-import-not-at-top
+  sg = model.fields['subgraphs'][g]
+  codes = model.fields['operatorCodes']
+  tv = lambda t: t.value if isinstance(t, Ext) else t
+
+  def num(x):
+    if isinstance(x, NdArr):
+      return tuple(round(float(v), 12) for v in x.data)
+    if isinstance(x, list):
+      return tuple(round(float(v), 12) for v in x)
+    return x
+  ops = []
+  for op in sg.fields['operators']:
+    f = op.fields
+    c = codes[f['opcodeIndex']].fields['builtinCode'] if isinstance(f['opcodeIndex'], int) and 0 <= f['opcodeIndex'] < len(codes) else None
+    ops.append((f['label'], tv(c), tuple(f['inputs']), tuple(f['outputs'])))
+  tensors = []
+  for t in sg.fields['tensors']:
+    f = t.fields
+    q = f['quantization']
+    qd = None if q is None else (num(q.fields['scale']), num(q.fields['zeroPoint']), q.fields['quantizedDimension'])
+    data = model.fields['buffers'][f['buffer']].fields['data'] if isinstance(f['buffer'], int) else None
+    tensors.append((f['name'], tv(f['type']), qd, 'rewritten' if (data is not None and not (isinstance(data, str) and data.startswith('float-bytes'))) else ('float' if data is not None else 'none')))
+  return {'operators': ops, 'tensors': tensors, 'inputs': list(sg.fields['inputs']), 'outputs': list(sg.fields['outputs'])}
+
+
+def rule_subgraph_independence(ctx, R: str):
+  """C19 as a table: a model of several subgraphs (different layouts, one
+  signature each) is pushed through the whole pipeline; every subgraph must come
+  out exactly as when it is quantized as the only subgraph of a model - same
+  operators in the same order, same operand wiring, same tensor types, same
+  scales and zero points, same constants rewritten."""
+  rs = ctx.rule(R, 'every subgraph of a multi-subgraph model is quantized exactly as if it stood alone (whole pipeline on label models, two and three subgraphs, any order)', floor=1)
+  tg = ctx.repo.func('transformation_performer:TransformationPerformer.transform_graph')
+  ctx.instance(R)
+  A = ([('ax', 0), ('aw1', 1), ('ah', 0), ('aw2', 1), ('aout', 0)], [('afc1', 'fc', [0, 1], [2]), ('afc2', 'fc', [2, 3], [4])], [0], [4])
+  B = ([('bx', 0), ('ba', 0), ('bw', 1), ('bh', 0), ('bout', 0)], [('babs1', 'abs', [0], [1]), ('bfc', 'fc', [1, 2], [3]), ('babs2', 'abs', [3], [4])], [0], [4])
+  C = ([('cx', 0), ('cs', 0), ('cw', 1), ('cout', 0)], [('csm', 'sm', [0], [1]), ('cfc', 'fc', [1, 2], [3])], [0], [3, 1])
+  rule_lists = {'FC static': [('.*', 'fc', 'srq')], 'everything static': [('.*', '*', 'srq')], 'FC dynamic': [('.*', 'fc', 'drq')], 'FC static in one subgraph only (regex)': [('bh;', 'fc', 'srq')]}
+  alone = {}
+  rs.exhaustive = True
+  for lname, rules in rule_lists.items():
+    for gname, g in (('A', A), ('B', B), ('C', C)):
+      m, why = _pipeline_multi(ctx, R, [g], rules)
+      if m is None:
+        ctx.check(R, False, tg.node, tg, f'{lname}: subgraph {gname} alone', why)
+        alone[(lname, gname)] = None
+        continue
+      alone[(lname, gname)] = _subgraph_fingerprint(m, 0)
+    for combo in (('A', 'B'), ('B', 'A'), ('C', 'A', 'B')):
+      gs = [dict(A=A, B=B, C=C)[x] for x in combo]
+      m, why = _pipeline_multi(ctx, R, gs, rules)
+      label = f'{lname}: model of subgraphs {combo}'
+      if m is None:
+        ctx.check(R, False, tg.node, tg, label, why)
+        continue
+      for pos, gname in enumerate(combo):
+        want = alone.get((lname, gname))
+        if want is None:
+          continue
+        got = _subgraph_fingerprint(m, pos)
+        diff = [k for k in want if want[k] != got[k]]
+        detail = ''
+        if diff:
+          k = diff[0]
+          pairs = [(a, b) for a, b in zip(want[k], got[k]) if a != b] if isinstance(want[k], list) and len(want[k]) == len(got[k]) else [(want[k], got[k])]
+          detail = f'{k}: alone {pairs[0][0]!r}, in the model {pairs[0][1]!r}'
+        ctx.check(R, not diff, tg.node, tg, f'{label}: subgraph {gname} at position {pos}', f'subgraph {gname} is quantized differently than when it stands alone - {detail}')
